@@ -46,25 +46,24 @@ func ZZH_C11_crash() {
 		parent = bd.Block.BlockHash
 	}
 	bd := zzExecBlock(lg, h, parent)
-	stateDurable := zz.Choice("stateBatch", 2) == 1
+	// per store, the durable write events (batch commits, direct puts) form a prefix:
+	// the state store performs 1 event (2 when old journals are pruned), the index store 1
+	ns := zz.Choice("stateStoreEvents", 4) // 0..3 events of the state store survive
+	stateDurable := ns >= 1
 	chainDurable := zz.Choice("indexBatch", 2) == 1
 	k := zz.Choice("blockfileTables", 6)
-	pruneDurable := true
-	if h > 10 && stateDurable {
-		pruneDurable = zz.Choice("pruneBatch", 2) == 1
+	stateStore.ArmCrash(ns)
+	nc := 0
+	if chainDurable {
+		nc = 1
 	}
-	sm := make([]bool, stateStore.Commits()+2)
-	sm[stateStore.Commits()] = !stateDurable
-	sm[stateStore.Commits()+1] = !pruneDurable
-	stateStore.DropMask = sm
-	cm := make([]bool, chainStore.Commits()+1)
-	cm[chainStore.Commits()] = !chainDurable
-	chainStore.DropMask = cm
+	chainStore.ArmCrash(nc)
 	zz.BlockFileDurable(bf, k)
 	lg.PersistBlockData(bd)
 
 	// ---- restart ----
-	stateStore.DropMask, chainStore.DropMask = nil, nil
+	stateStore.Disarm()
+	chainStore.Disarm()
 	bf2 := zz.ReopenBlockFile(bf)
 	zz.Tag("C11.D10", chainDurable && !stateDurable)          // index ahead of state: New refuses
 	zz.Tag("C11.F-bf-ahead", k == 5 && !chainDurable)          // block file ahead of index
